@@ -186,7 +186,7 @@ def job_load_many():
 
 def job_line_iterator():
     """LineIterator data-structure invariant with ghost state p (lines taken from the file) and d (stack depth):
-    lineno == p - d.  __next__ / back preserve it; on StopIteration lineno == p - d + 1."""
+    lineno == p - d.  __next__ / back preserve it, also when __next__ ends in StopIteration."""
     target = f"{UT}.LineIterator"
     led = Ledger()
     LI = utils_mod().LineIterator
@@ -218,7 +218,9 @@ def job_line_iterator():
         ln = to_z3(lit.fields["lineno"])
         if raised is not None:
             ctx.prove(f"{target}.__next__::raises.only-StopIteration-at-end-of-file", isinstance(raised, StopIteration), kind="raises")
-            ctx.prove(f"{target}.__next__::raises.lineno-is-number-of-the-line-that-was-requested", z3.And(ln == p - d + 1, d2 == d, d == 0), kind="raises")
+            # "the number of the last line that was read": at the end of the input no line is read, so the counter (and
+            # with it the data-structure invariant lineno == p - d) is unchanged, however often next() is called there
+            ctx.prove(f"{target}.__next__::raises.lineno-still-is-the-number-of-the-last-line-that-was-read-(invariant-kept-at-end-of-file)", z3.And(ln == p - d, d2 == d, d == 0), kind="raises")
             return
         ctx.prove(f"{target}.__next__::post.invariant-lineno==lines-taken-minus-pushed-back", ln == p2 - d2)
         ctx.prove(f"{target}.__next__::post.lineno-advances-by-one", ln == (p - d) + 1)
@@ -486,7 +488,6 @@ def run(chk):
         "A-GC: an un-exhausted generator that is merely dropped is closed when CPython finalises it",
         "the file exists and is readable, else the operating system's error of open() escapes",
         "termination: the ghost measure 'lines left + push-back depth' is finite (finite file)",
-        "'the number of the last line that was read' is read as the last line *requested*: on StopIteration lineno == lines taken + 1",
     ]
     jobs = [("checks.c07", f, {}) for f in ("job_load_one", "job_load_many", "job_line_iterator", "job_errors", "job_termination")]
     res = collect(chk, run_jobs(jobs))
